@@ -44,6 +44,26 @@ def load_plugin(pid):
 # ----------------------------------------------------------------------------------------------
 # extraction (T1): every plugin may regenerate Coq files from /repo
 # ----------------------------------------------------------------------------------------------
+def run_shared_extracts(names, log):
+    """Shared extractors (harness/shared_extract.py) named by a plugin's SHARED_EXTRACT; returns {name: error or None}."""
+    from harness import shared_extract
+    status = {}
+    for nme in names:
+        fn, gen_files = shared_extract.SHARED[nme]
+        try:
+            for rel, content in fn().items():
+                lib.write_if_changed(os.path.join(COQ, rel), content)
+            status["shared:" + nme] = None
+        except Exception as e:
+            status["shared:" + nme] = "extraction failed: %s: %s" % (type(e).__name__, e)
+            log.append("shared extract %s failed:\n%s" % (nme, traceback.format_exc()))
+            for rel in gen_files:
+                lib.write_if_changed(os.path.join(COQ, rel),
+                                     "(* extraction failed: %s *)\nDefinition extraction_failed : unit := tt.\n"
+                                     % str(e).replace("*)", "* )"))
+    return status
+
+
 def run_extracts(log, only=None):
     """Run plugins' extract() (all of them, or those in `only`); returns {pid: error or None}."""
     status = {}
@@ -364,9 +384,10 @@ def check(pid, tier, seed):
     make_cmd = "coqc -Q coq PV <every file %s depends on, dependencies first> (full .vo, Coq 8.16.1; harness/driver.py build_targets) + coqc Print Assumptions" % pl.COQ_PROP
     try:
         # 1. extraction
-        ext_status = run_extracts(log, [pid] + list(getattr(pl, 'DEPENDS_ON_EXTRACT', [])))
+        ext_status = run_shared_extracts(getattr(pl, 'SHARED_EXTRACT', []), log)
+        ext_status.update(run_extracts(log, [pid] + list(getattr(pl, 'DEPENDS_ON_EXTRACT', []))))
         for p_, st in ext_status.items():
-            if st and (p_ == pid or p_ in getattr(pl, "DEPENDS_ON_EXTRACT", [])):
+            if st and (p_ == pid or p_.startswith("shared:") or p_ in getattr(pl, "DEPENDS_ON_EXTRACT", [])):
                 broken.append("extract:%s: %s" % (p_, st))
         # 2. prove
         files = deps_of(pl.COQ_PROP)
@@ -570,7 +591,9 @@ def replay(pid, path):
 
 def setup():
     log = []
-    st = run_extracts(log)
+    from harness import shared_extract
+    st = run_shared_extracts(list(shared_extract.SHARED), log)
+    st.update(run_extracts(log))
     for k, v in st.items():
         if v:
             print("extract", k, v)
